@@ -9,6 +9,7 @@ package main
 
 import (
 	"os"
+	"runtime/pprof"
 
 	"capnproto.org/go/capnp/v3/zverif/common"
 )
@@ -16,6 +17,12 @@ import (
 func main() {
 	cfg := common.ParseFlags()
 	rec := common.NewRecorder(cfg)
+	if pf := os.Getenv("RPCFAULT_CPUPROFILE"); pf != "" {
+		if f, err := os.Create(pf); err == nil {
+			pprof.StartCPUProfile(f)
+			defer pprof.StopCPUProfile()
+		}
+	}
 	switch cfg.Prop {
 	case "C09":
 		runC09(cfg, rec)
@@ -25,5 +32,4 @@ func main() {
 		rec.Inconclusive("rpcfault: unknown property " + cfg.Prop)
 		rec.Finish()
 	}
-	os.Exit(0)
 }
